@@ -218,6 +218,13 @@ def s4_translate(ctx, ck):
 
 
 # ---------------------------------------------------------------------------------------------
+def _err_exit(p):
+    if p.outcome[0] != "return":
+        return False
+    r = p.outcome[1]
+    return isinstance(r, tuple) and bool(r) and (r[0] == "from_residual" or (r[0] == "agg" and len(r) > 2 and r[2] == "Err"))
+
+
 def s5_convert(ctx, ck):
     fn = FLI + "convert"
     b = ctx.body(fn)
@@ -264,7 +271,9 @@ def s5_convert(ctx, ck):
             lens = [i for i, e in _calls(p, method="len") if mir.strip(e.b[0]) == res]
             pr = [i for i, e in _calls(p, method="push") if mir.strip(e.b[0]) == res]
             allp = allp and bool(lens) and bool(pr) and max(lens) < pr[0]
-        ok_inner = allp and il2.complete and not il2.break_paths and il2.elem[1][2] == "fwd" and bool(il2.cont_paths)
+        # (leaving the loop with an error -- `?` -- abandons the whole conversion; only successful conversions matter)
+        early = [p for p in il2.break_paths if not _err_exit(p)]
+        ok_inner = allp and il2.complete and not early and il2.elem[1][2] == "fwd" and bool(il2.cont_paths)
     ck.ob("C13-S5", fn, "every-produced-mapping-is-appended-once,in-order,and-indexed-by-its-position", ok_inner)
 
 
